@@ -405,9 +405,15 @@ class SafeLearner(Learner):
         if self._prev_actions != actions:
             #remember a copy: a caller that changes its own list in place must not change what we remember
             self._prev_actions = copy(actions)
-            all_safe = 0 not in actions and 1 not in actions
             make_safe = lambda a: float(a) if a in [0,1] else a
-            self._safe_actions = actions if all_safe else [ make_safe(a) for a in actions]
+            if is_batch(actions) and isinstance(actions,list):
+                #in a batch every row is an action set of its own
+                is_set = lambda A: isinstance(A,(list,tuple))
+                all_safe = all(0 not in A and 1 not in A for A in actions if is_set(A))
+                self._safe_actions = actions if all_safe else type(actions)([[make_safe(a) for a in A] if is_set(A) else A for A in actions])
+            else:
+                all_safe = 0 not in actions and 1 not in actions
+                self._safe_actions = actions if all_safe else [ make_safe(a) for a in actions]
 
         pred = self._safe_call('predict', self.learner.predict, (context,self._safe_actions))
         return self._parse_pred(context, self._safe_actions, pred)
